@@ -19,6 +19,7 @@ EXPLANATION = (
     "parameter-pure, and written/read array arguments are distinct at every package call site. Discharging all of "
     "them proves the iterations commute, hence equality with the sequential py_func order for exact arithmetic for "
     "every thread count, chunk size and interleaving."
+    " Since wave 6: C14's no-fastmath obligations for the decimators and their parallel twins are re-evaluated (O4): a kernel equals its own Python definition only if the compiler may not re-associate it."
 )
 KERNELS_MOD = "sigpyproc.core.kernels"
 
